@@ -219,6 +219,34 @@ Theorem C06_linsolve_test_after_construction_differs :
 Proof. exact (conj test_after_differs_iterative test_after_differs_direct). Qed.
 Print Assumptions C06_linsolve_test_after_construction_differs.
 
+(* ---- which freshly solved columns are STORED (Model/LdaGlue.v `stored` = the test of _do_solve_1rhs as written,
+   regenerated and bridged on every run): the reference of "adds nothing new up to the tolerance" is the norm of the
+   column's OWN right-hand side.  Hence the decision is independent of the magnitude (units) of the column -- a block
+   whose columns differ by any factor stores each column exactly when it would be stored on its own -- and a column
+   of which more than the fraction tol survives the orthogonalisation is stored, so that a later right-hand side in its
+   span finds it (reuse theorems above). *)
+Theorem C06_storage_test_per_column : forall tol s bnrm bnrm0, (0 < s)%Q ->
+  stored tol (s * bnrm) (s * bnrm0) = stored tol bnrm bnrm0.
+Proof. exact stored_scale. Qed.
+Print Assumptions C06_storage_test_per_column.
+
+Theorem C06_storage_independent_column_stored : forall tol c bnrm0, (tol < c)%Q -> (0 < bnrm0)%Q ->
+  stored tol (c * bnrm0) bnrm0 = true.
+Proof. exact stored_fraction. Qed.
+Print Assumptions C06_storage_independent_column_stored.
+
+(* with any reference norm taken over the whole block (>= the largest column), a column 1/tol times smaller than that
+   reference is dropped although it is independent of everything stored: the per-column reference is necessary *)
+Theorem C06_storage_large_reference_drops : forall tol bnrm ref, (bnrm <= tol * ref)%Q -> stored tol bnrm ref = false.
+Proof. exact stored_large_reference. Qed.
+Print Assumptions C06_storage_large_reference_drops.
+
+Theorem C06_storage_block_reference_refuted :
+  exists tol bnrm bnrm0 ref, (0 < tol)%Q /\ (tol < 1)%Q /\ (0 < bnrm0)%Q /\ (bnrm0 <= ref)%Q /\
+    stored tol bnrm bnrm0 = true /\ stored tol bnrm ref = false.
+Proof. exact stored_reference_matters. Qed.
+Print Assumptions C06_storage_block_reference_refuted.
+
 (* non-vacuity: CG(tol=1e-4) wrapped by LinSolve: the stored solution (residual 1e-4) and twice it are recognised;
    a direct solver: a right-hand side at relative distance 3e-7 from the database is solved, not reconstructed *)
 Example C06_linsolve_tol_examples :
